@@ -1640,54 +1640,57 @@ class AstEval:
 
     async def ast_compare(self, arg):
         """Evaluate comparison operators by calling function based on class."""
-        left = arg.left
-        for cmp_op, right in zip(arg.ops, arg.comparators):
+        left = await self.aeval(arg.left)
+        last = len(arg.ops) - 1
+        val = True
+        for idx, (cmp_op, right_ast) in enumerate(zip(arg.ops, arg.comparators)):
+            right = await self.aeval(right_ast)
             name = "ast_cmpop_" + cmp_op.__class__.__name__.lower()
             val = await getattr(self, name, self.ast_not_implemented)(left, right)
-            if not val:
-                return False
+            if idx == last or not val:
+                return val
             left = right
-        return True
+        return val
 
-    async def ast_cmpop_eq(self, arg0, arg1):
+    async def ast_cmpop_eq(self, val0, val1):
         """Evaluate comparison operator: ==."""
-        return (await self.aeval(arg0)) == (await self.aeval(arg1))
+        return val0 == val1
 
-    async def ast_cmpop_noteq(self, arg0, arg1):
+    async def ast_cmpop_noteq(self, val0, val1):
         """Evaluate comparison operator: !=."""
-        return (await self.aeval(arg0)) != (await self.aeval(arg1))
+        return val0 != val1
 
-    async def ast_cmpop_lt(self, arg0, arg1):
+    async def ast_cmpop_lt(self, val0, val1):
         """Evaluate comparison operator: <."""
-        return (await self.aeval(arg0)) < (await self.aeval(arg1))
+        return val0 < val1
 
-    async def ast_cmpop_lte(self, arg0, arg1):
+    async def ast_cmpop_lte(self, val0, val1):
         """Evaluate comparison operator: <=."""
-        return (await self.aeval(arg0)) <= (await self.aeval(arg1))
+        return val0 <= val1
 
-    async def ast_cmpop_gt(self, arg0, arg1):
+    async def ast_cmpop_gt(self, val0, val1):
         """Evaluate comparison operator: >."""
-        return (await self.aeval(arg0)) > (await self.aeval(arg1))
+        return val0 > val1
 
-    async def ast_cmpop_gte(self, arg0, arg1):
+    async def ast_cmpop_gte(self, val0, val1):
         """Evaluate comparison operator: >=."""
-        return (await self.aeval(arg0)) >= (await self.aeval(arg1))
+        return val0 >= val1
 
-    async def ast_cmpop_is(self, arg0, arg1):
+    async def ast_cmpop_is(self, val0, val1):
         """Evaluate comparison operator: is."""
-        return (await self.aeval(arg0)) is (await self.aeval(arg1))
+        return val0 is val1
 
-    async def ast_cmpop_isnot(self, arg0, arg1):
+    async def ast_cmpop_isnot(self, val0, val1):
         """Evaluate comparison operator: is not."""
-        return (await self.aeval(arg0)) is not (await self.aeval(arg1))
+        return val0 is not val1
 
-    async def ast_cmpop_in(self, arg0, arg1):
+    async def ast_cmpop_in(self, val0, val1):
         """Evaluate comparison operator: in."""
-        return (await self.aeval(arg0)) in (await self.aeval(arg1))
+        return val0 in val1
 
-    async def ast_cmpop_notin(self, arg0, arg1):
+    async def ast_cmpop_notin(self, val0, val1):
         """Evaluate comparison operator: not in."""
-        return (await self.aeval(arg0)) not in (await self.aeval(arg1))
+        return val0 not in val1
 
     async def ast_boolop(self, arg):
         """Evaluate boolean operators and and or."""
